@@ -96,6 +96,7 @@ def handle (j : Json) : Except String Json := do
     pure (Json.mkObj [("dim", jInt (embDim cells))])
   | "tables" =>
     pure (Json.mkObj [
+      ("statsAfter", jList (fun (p : String × List String) => Json.arr #[(p.1 : Json), jStrs p.2]) statsAfterTable),
       ("statsFor", jList (fun (p : String × List String) => Json.arr #[(p.1 : Json), jStrs p.2]) statsForTable),
       ("defaults", jList (fun (p : String × String × List Int) => Json.arr #[(p.1 : Json), (p.2.1 : Json), jInts p.2.2])
         defaultsTable)])
